@@ -313,6 +313,8 @@ def float_histories(seed, n_hist):
     Krb = Gq.T @ Gq * 40                                   # stiffness with two rigid-body modes; damping proportional to it, full mass: coupled path with rb modes
     mk = [("SolveUnc coupled (complex modes)", lambda o: ode.SolveUnc(M, Bd, K, 0.01, order=o)),
           ("SolveUnc coupled with two rigid-body modes", lambda o: ode.SolveUnc(M, 0.02 * Krb, Krb, 0.01, order=o)),
+          ("SolveUnc modal system with two rigid-body modes and coupled elastic damping (complex path)",
+           lambda o: ode.SolveUnc(np.array([2.0, 3.0, 1.5, 4.0]), np.array([[0, 0, 0, 0], [0, 0, 0, 0], [0, 0, 1.0, 0.3], [0, 0, -0.2, 2.5]]), np.array([0.0, 0.0, 80.0, 300.0]), 0.01, order=o)),
           ("SolveUnc coupled m=None", lambda o: ode.SolveUnc(None, Bd, K, 0.01, order=o)),
           ("SolveUnc diag rb+rf", lambda o: ode.SolveUnc(md, bd, kd, 0.01, rf=[3], order=o)),
           ("SolveCDF", lambda o: ode.SolveCDF(md, bcd, kd, 0.01, rf=[3], order=o)),
